@@ -19,6 +19,7 @@ package main
 
 import (
 	"context"
+	"crypto/sha256"
 	"encoding/hex"
 	"encoding/json"
 	"flag"
@@ -34,6 +35,7 @@ import (
 	sdkmath "cosmossdk.io/math"
 	codectypes "github.com/cosmos/cosmos-sdk/codec/types"
 	sdk "github.com/cosmos/cosmos-sdk/types"
+	ethcommon "github.com/ethereum/go-ethereum/common"
 	ctypes "github.com/palomachain/paloma/v2/x/consensus/types"
 	evmtypes "github.com/palomachain/paloma/v2/x/evm/types"
 	schedtypes "github.com/palomachain/paloma/v2/x/scheduler/types"
@@ -94,11 +96,12 @@ func main() {
 }
 
 func run(r *report.Run, shard, nshards int, replayFile string) {
-	r.Rule = "two BFS scenarios on the real handlers. A: Send/EndBlk50 (batch build)/EstimateQuorum (3 estimates + skyway end-blocker: election re-issues the checkpoint)/Confirm(v,batch) (genuine signature over the stored BytesToSign)/EndBlkLate (timeout)/ExecutedQuorum/Evidence(by, checkpoint, signer) with (checkpoint, signer) over every published checkpoint x every validator that signed it, and over never-published checkpoints (mutated amount; mutated gas estimate) x every validator key and an outsider key. B: Exec (job -> turnstone message)/EstimateQuorum/ErrorData/PublicData/Ev(v,proof) for every validator/ReEv(v,proof) (a validator that already attested re-submits the same or a corrected proof; at most 1 per history, thorough 2)/Prune (consensus module end-blocker at h = 0 mod 50, message older than 300 blocks). A state is distinct by (skyway store | consensus store, staking jailed flags, ghost)"
+	r.Rule = "two BFS scenarios on the real handlers. A: Send/EndBlk50 (batch build)/EstimateQuorum (3 estimates + skyway end-blocker: election re-issues the checkpoint)/Confirm(v,batch) (genuine signature over the stored BytesToSign)/EndBlkLate (timeout)/ExecutedQuorum/Evidence(by, checkpoint, signer) with (checkpoint, signer) over every published checkpoint x every validator that signed it, over never-published checkpoints (mutated amount; mutated gas estimate) x every validator key and an outsider key, and over fabricated subjects whose BytesToSign FIELD is chosen by the accuser {sign-bytes of a turnstone queue message every validator signed via MsgAddMessagesSignatures, the latest published checkpoint, 32 bytes nobody issued} with the validators' genuine signatures over those bytes. B: Exec (job -> turnstone message)/EstimateQuorum/ErrorData/PublicData/Ev(v,proof) for every validator/ReEv(v,proof) (a validator that already attested re-submits the same or a corrected proof; at most 1 per history, thorough 2)/Prune (consensus module end-blocker at h = 0 mod 50, message older than 300 blocks). A state is distinct by (skyway store | consensus store, staking jailed flags, ghost)"
 	r.Assumptions = []string{
 		"'published checkpoint' = every value the stored BytesToSign of any open batch took, sampled by the ghost after every operation together with the batch as it was then (the evidence subject)",
 		"a validator's signature over a published checkpoint becomes available to the accuser when the validator submits it (Confirm op, whether or not the chain accepts the confirm); signatures over never-published checkpoints are produced with the real keys directly (that is the misbehaviour the handler exists for)",
 		"weaker reading for unpublished evidence: the property only forbids jailing anybody but the registered owner of the recovered key; that such evidence does jail the signer is counted (unpublished_evidence_jailed) but not required",
+		"'bytes the chain issued for signing' = the published batch checkpoints plus the sign-bytes of the consensus-queue message (a SubmitLogicCall put there by a job execution during set-up, estimate elected, signed by all validators with MsgAddMessagesSignatures); one queued message type stands for all turnstone messages (UpdateValset is signed with the same key and scheme)",
 		"evidence over a published checkpoint must be rejected and must not flip any jailed flag; no other operation of scenario A may flip a jailed flag",
 		"quorum operations (estimates, claims) are macros of three validator messages + skyway end-blocker (vote interleavings are C02's subject)",
 		"scenario B prunes with the consensus module's own EndBlock (estimates, attestation, PruneOldMessages(300) at h%50==0) and not the whole module manager, so keep-alive jailing of x/valset (C12) cannot be confused with prune-time jailing; the blocks between hand-in of evidence and the prune height are empty",
@@ -250,6 +253,68 @@ type envA struct {
 	outsider   *world.Val // an eth key that belongs to no validator
 	maxSends   int
 	thorough   bool
+	// sign-bytes of a turnstone consensus-queue message (SubmitLogicCall) that
+	// every validator signed through MsgAddMessagesSignatures during set-up:
+	// bytes the chain issued for signing with the same key and the same scheme
+	queueBytes []byte
+}
+
+// issued tells whether the chain ever asked validators to sign these bytes:
+// a published batch checkpoint or the sign-bytes of a consensus-queue message.
+func (e *envA) issued(g *ghostA, bts []byte) bool {
+	return g.published(hex.EncodeToString(bts)) || string(bts) == string(e.queueBytes)
+}
+
+// queueSetup puts one turnstone message into the consensus queue (job
+// execution), elects its gas estimate and has every validator sign it, all
+// through real transactions and the consensus module's end-blocker.
+func (e *envA) queueSetup(ctx sdk.Context) {
+	w := e.w
+	u := e.user
+	def, _ := json.Marshal(evmtypes.JobDefinition{Address: "0x00000000000000000000000000000000000000cc", ABI: "[]"})
+	pay, _ := json.Marshal(evmtypes.JobPayload{HexPayload: "deadbeef"})
+	job := &schedtypes.Job{ID: "job1", Routing: schedtypes.Routing{ChainType: "evm", ChainReferenceID: ref}, Definition: def, Payload: pay}
+	for _, m := range []sdk.Msg{&schedtypes.MsgCreateJob{Job: job, Metadata: world.Meta(u)}, &schedtypes.MsgExecuteJob{JobID: "job1", Metadata: world.Meta(u)}} {
+		if res := w.DeliverTx(ctx, []*world.Actor{u}, m); !res.OK() {
+			panic(fmt.Sprintf("queue set-up %T: %v", m, res.Err))
+		}
+	}
+	q := world.TurnstoneQueue(ref)
+	msgs := w.Queue(ctx, q)
+	if len(msgs) != 1 {
+		panic("queue set-up: no message queued")
+	}
+	id := msgs[0].GetId()
+	for _, v := range w.Vals {
+		if res := w.DeliverTx(ctx, []*world.Actor{v.Actor}, world.Estimate(v, q, id, 21000)); !res.OK() {
+			panic(fmt.Sprintf("queue set-up estimate: %v", res.Err))
+		}
+	}
+	mod := w.App.ModuleManager.Modules[ctypes.ModuleName].(appmodule.HasEndBlocker)
+	must(mod.EndBlock(context.Context(ctx)))
+	msgs = w.Queue(ctx, q)
+	if len(msgs) != 1 || msgs[0].GetGasEstimate() == 0 {
+		panic("queue set-up: estimate not elected")
+	}
+	bts, err := msgs[0].GetBytesToSign(w.App.AppCodec())
+	must(err)
+	if len(bts) != 32 {
+		panic(fmt.Sprintf("queue set-up: sign-bytes of %d bytes", len(bts)))
+	}
+	for _, v := range w.Vals {
+		if res := w.DeliverTx(ctx, []*world.Actor{v.Actor}, w.SignQueued(v, q, msgs[0])); !res.OK() {
+			panic(fmt.Sprintf("queue set-up signature of %s: %v", v.Name, res.Err))
+		}
+		// the signature the chain accepted is byte-identical to a skyway-style
+		// signature over the same 32 bytes (same key, same prefix scheme)
+		if hex.EncodeToString(world.SignConsensusBytes(v, bts)) != world.SignCheckpoint(v, bts) {
+			panic("queue set-up: signing schemes differ")
+		}
+	}
+	if n := len(w.Queue(ctx, q)[0].GetSignData()); n != len(w.Vals) {
+		panic(fmt.Sprintf("queue set-up: %d signatures recorded", n))
+	}
+	e.queueBytes = bts
 }
 
 func specA(r *report.Run) explore.Spec {
@@ -264,6 +329,7 @@ func specA(r *report.Run) explore.Spec {
 		e.submitters = append(e.submitters, w.Vals[2].Actor)
 		e.maxSends = 3
 	}
+	e.queueSetup(ctx)
 	spec := explore.Spec{
 		Name: "evidence", Init: []*explore.Node{{Ctx: ctx, Ghost: &ghostA{Signed: map[string][]int{}}}}, Ops: e.ops,
 		Hash:     e.hash,
@@ -325,8 +391,25 @@ func (e *envA) observe(ctx sdk.Context, g *ghostA) *explore.Fail {
 type evidenceCase struct {
 	tag     string
 	subject *skywaytypes.OutgoingTxBatch
-	cp      []byte
-	signers []int // validator indexes; -1 = outsider key
+	cp      []byte // the bytes the signature is made over
+	signers []int  // validator indexes; -1 = outsider key
+	fab     bool   // fabricated subject carrying a chosen BytesToSign field
+}
+
+// fabricated is a well-formed batch no chain ever built (its content-derived
+// checkpoint is never published) whose BytesToSign FIELD is set by the accuser.
+func (e *envA) fabricated(bts []byte) *skywaytypes.OutgoingTxBatch {
+	return &skywaytypes.OutgoingTxBatch{
+		BatchNonce: 4242, BatchTimeout: 1_800_000_000,
+		Transactions: []skywaytypes.OutgoingTransferTx{{
+			Id: 4242, Sender: e.user.Addr.String(), DestAddress: "0x00000000000000000000000000000000000000aa",
+			Erc20Token:      skywaytypes.ERC20Token{Contract: erc20, Amount: sdkmath.NewInt(5), ChainReferenceId: ref},
+			BridgeTaxAmount: sdkmath.ZeroInt(),
+		}},
+		TokenContract: erc20, PalomaBlockCreated: 150, ChainReferenceId: ref, BytesToSign: bts,
+		Assignee: e.w.Vals[0].ValAddr.String(), GasEstimate: 21000,
+		AssigneeRemoteAddress: ethcommon.HexToAddress(e.w.Vals[0].EthAddr()).Bytes(),
+	}
 }
 
 func (e *envA) evidenceCases(g *ghostA) []evidenceCase {
@@ -338,15 +421,34 @@ func (e *envA) evidenceCases(g *ghostA) []evidenceCase {
 		must(err)
 		out = append(out, evidenceCase{tag: p.Tag, subject: &b, cp: cp, signers: g.Signed[p.Hex]})
 	}
+	vals := []int{}
+	for i := range e.w.Vals {
+		vals = append(vals, i)
+	}
+	all := append(append([]int{}, vals...), -1)
+	// fabricated subjects: the accuser chooses the 32 bytes in the BytesToSign
+	// field and attaches a signature a validator really made over those bytes
+	rnd := sha256.Sum256([]byte("c13: bytes nobody was asked to sign"))
+	rndSigners := vals[:1]
+	if e.thorough {
+		rndSigners = vals
+	}
+	out = append(out,
+		evidenceCase{tag: "fab(bts=queueMsg)", subject: e.fabricated(e.queueBytes), cp: e.queueBytes, signers: vals, fab: true},
+		evidenceCase{tag: "fab(bts=random)", subject: e.fabricated(rnd[:]), cp: rnd[:], signers: rndSigners, fab: true})
 	if len(g.Pub) == 0 {
 		return out
 	}
-	all := []int{}
-	for i := range e.w.Vals {
-		all = append(all, i)
-	}
-	all = append(all, -1)
 	last := g.Pub[len(g.Pub)-1]
+	lastCP, _ := hex.DecodeString(last.Hex)
+	out = append(out, evidenceCase{tag: "fab(bts=" + last.Tag + ")", subject: e.fabricated(lastCP), cp: lastCP, signers: g.Signed[last.Hex], fab: true})
+	if e.thorough {
+		// a real batch, content untouched, whose BytesToSign field is replaced
+		var b skywaytypes.OutgoingTxBatch
+		must(b.Unmarshal(last.Subject))
+		b.BytesToSign = e.queueBytes
+		out = append(out, evidenceCase{tag: "real(" + last.Tag + ",bts=queueMsg)", subject: &b, cp: e.queueBytes, signers: vals, fab: true})
+	}
 	mutate := func(tag string, f func(b *skywaytypes.OutgoingTxBatch)) {
 		var b skywaytypes.OutgoingTxBatch
 		must(b.Unmarshal(last.Subject))
@@ -484,7 +586,7 @@ func (e *envA) ops(n *explore.Node) []explore.Op {
 				add(fmt.Sprintf("Evidence(%s,%s,sig=%s)", by.Name, ec.tag, name), true, func(ctx *sdk.Context, g *ghostA) *explore.Fail {
 					subj, err := codectypes.NewAnyWithValue(ec.subject)
 					must(err)
-					published := g.published(hex.EncodeToString(ec.cp))
+					published := e.issued(g, ec.cp)
 					before := jailed(w, *ctx)
 					res := w.DeliverTx(*ctx, []*world.Actor{by}, &skywaytypes.MsgSubmitBadSignatureEvidence{Subject: subj, Signature: world.SignCheckpoint(signer, ec.cp), ChainReferenceId: ref, Metadata: world.Meta(by)})
 					if res.Stage == "ante" || res.Stage == "build" || res.Stage == "validate" {
@@ -504,7 +606,21 @@ func (e *envA) ops(n *explore.Node) []explore.Op {
 					if published {
 						kind = "published"
 					}
-					cases[fmt.Sprintf("A|%s|signer-is-validator=%v|accepted=%v|newly=%v|before=%s", kind, si >= 0, res.OK(), newly, flagString(before))] = struct{}{}
+					cases[fmt.Sprintf("A|%s|fab=%v|signer-is-validator=%v|accepted=%v|newly=%v|before=%s", kind, ec.fab, si >= 0, res.OK(), newly, flagString(before))] = struct{}{}
+					if ec.fab {
+						counters["A_evidence_fabricated_subject"]++
+						kind = "fab-" + kind
+					}
+					if published && ec.fab {
+						counters["A_evidence_fabricated_over_issued_bytes"]++
+						if len(newly) > 0 {
+							return explore.Failf("A-issued-bytes-signature-jails", "evidence by %s with the fabricated subject %s (BytesToSign field = %x, bytes the chain issued for signing) and %s's genuine signature over those bytes jailed %v", by.Name, ec.tag, ec.cp, name, newly)
+						}
+						if res.OK() {
+							return explore.Failf("A-issued-bytes-evidence-accepted", "evidence by %s with the fabricated subject %s carrying %s's genuine signature over chain-issued bytes %x was accepted (jailed flags %s)", by.Name, ec.tag, name, ec.cp, flagString(after))
+						}
+						return nil
+					}
 					if published {
 						counters["A_evidence_over_published"]++
 						if len(newly) > 0 {
